@@ -52,7 +52,7 @@ def floors(tier):
     return {"evaluations": 320 if tier == "quick" else 5000, "distinct": 320 if tier == "quick" else 5000,
             "counters": {"packages_validated": 380, "tables_validated": 600, "rows_validated": 20000, "cell_records_tiled": 100000, "references_resolved": 100000,
                          "second_saves": 40, "package_form_saves": 40, "fixture_resaves": 60, "multi_tile_tables": 20, "wide_tables": 8, "new_objects_seen": 2000,
-                         "documents_with_images": 5, "documents_with_merges": 20}}
+                         "documents_with_images": 5, "documents_with_merges": 20, "fixtures_with_every_table_edited": 55}}
 
 
 def plan(tier, seed):
@@ -274,6 +274,43 @@ def run_fixtures(spec, rec):
             if os.path.exists(path):
                 os.remove(path)
         rec.case(("fixture", os.path.basename(p)))
+        # the same source document with a control, a value and a format put on every one of its tables through the API
+        # (tables of source documents keep their lists in archives of many shapes and names): what the save adds must be sound
+        try:
+            with warnings.catch_warnings():
+                warnings.simplefilter("ignore")
+                doc = Document(p)
+                touched = 0
+                for s_ in doc.sheets:
+                    for t in list(s_.tables)[:6]:
+                        if t.num_rows < 1 or t.num_cols < 1 or t.num_rows * t.num_cols > 20000:
+                            continue
+                        r, c = t.num_rows - 1, t.num_cols - 1
+                        try:
+                            t.write(r, c, "opt A")
+                            t.set_cell_formatting(r, c, "popup", popup_values=["opt A", "opt B"], allow_none=False)
+                            if t.num_cols > 1:
+                                t.write(r, c - 1, True)
+                                t.set_cell_formatting(r, c - 1, "tickbox")
+                            if t.num_rows > 1:
+                                t.write(r - 1, c, 1234.5)
+                                t.set_cell_formatting(r - 1, c, "number", decimal_places=1, show_thousands_separator=True)
+                            touched += 1
+                        except Exception:  # noqa: BLE001 - what the API accepts on a source table is not C07's business
+                            rec.count("fixture_table_edit_raised")
+                if not touched:
+                    continue
+                w = docs.save(doc, path)
+        except Exception as e:  # noqa: BLE001
+            rec.violation("save_raised", {"origin": "fixture-every-table-edited", "exc": type(e).__name__, "frame": "?"}, {"msg": str(e)[:300], "fixture": os.path.basename(p)}, case=case)
+            continue
+        try:
+            validate_saved(path, p, w, rec, {"part": "fixture-edited", "path": p}, {"origin": "fixture-every-table-edited", "save": "first"})
+            rec.count("fixtures_with_every_table_edited")
+            rec.count("fixture_tables_edited", touched)
+        finally:
+            if os.path.exists(path):
+                os.remove(path)
     rec.sample({"fixtures": [os.path.basename(p) for p in spec["paths"][:4]]})
 
 
@@ -291,5 +328,5 @@ def replay(case, rec):
         generated_case(case, rec)
     elif p == "shape":
         run_shape({"shape": case["shape"], "seed": case.get("seed", 0)}, rec)
-    elif p == "fixture":
+    elif p in ("fixture", "fixture-edited"):
         run_fixtures({"paths": [case["path"]]}, rec)
